@@ -2,4 +2,5 @@ INIT Init
 NEXT Next
 CONSTANT Pairs = FALSE
 CONSTANT PairLimit = 0
+CONSTANT RuleLimit = 400
 CHECK_DEADLOCK FALSE
